@@ -35,7 +35,7 @@ SLACK = 3          # three floor divisions separate the paid amount from the doc
 
 
 def budgets(tier):
-    return (48, 40) if tier == "quick" else (1200, 60)
+    return (60, 40) if tier == "quick" else (1200, 60)
 
 
 def strip(o):
